@@ -346,8 +346,21 @@ def r_strat(ctx, view):
             if {e.get("comp") for e in fs} == {"map", "heap", "qp", "size"}:
                 swap_blocks = [e["bb"] for e in fs]
         true_t = t["otherwise"]
-        ok = op == "Gt" and bool(swap_blocks) and all(sb == true_t or sb in f.cfg.reachable_from(true_t) for sb in swap_blocks)
+        false_ts = [tb for _v, tb in t["targets"]]
+        # the edge on which `other.size > self.size` holds, and the edge(s) on which it does not
+        if op == "Le":
+            op, yes_ts, no_ts = "Gt", false_ts, [true_t]
+        else:
+            yes_ts, no_ts = [true_t], false_ts
+
+        def from_edge(tbs, sb):
+            return any(sb == tb or sb in f.cfg.reachable_from(tb) for tb in tbs)
+        ok = op == "Gt" and bool(swap_blocks) and all(from_edge(yes_ts, sb) for sb in swap_blocks)
         why = "stores are exchanged iff other.size %s self.size" % {"Gt": ">", "Ge": ">=", "Lt": "<", "Le": "<="}[op]
+        # ... and ONLY then: no exchange is reachable once the comparison has said "not longer" (round 13: `a > b || other_fits`)
+        if ok and any(from_edge(no_ts, sb) for sb in swap_blocks):
+            ok = False
+            why = "the stores can also be exchanged when other.size <= self.size (a second condition next to the size comparison)"
     ctx.ob("R-STRAT", "Store::append:swap-only-if-other-strictly-longer", ok, f.loc(),
            why + " (on a clash the receiver's priority stays unless the other queue was longer)")
     dr = [bb for bb, t in f.calls() if view.fx.call_info(f, bb).local_callee == "store::Store::drain" and
